@@ -77,6 +77,108 @@ fn c07_listing(evs: &Vec<Ev>, rep: &mut Rep) -> Result<(), String> {
     Ok(())
 }
 
+/// the lifecycle listing a remote client builds from the server's lifecycle update frames (latest frame per id wins)
+/// against the lifecycle ids of the messages the same session delivers
+fn c07_remote_listing(v: &(Vec<Ev>, u8), rep: &mut Rep) -> Result<(), String> {
+    c07_remote_listing_x(v, rep, false)
+}
+/// `strict`: without the exclusion of the listed finding F07c (only used to replay its pinned reproducer)
+fn c07_remote_listing_x(v: &(Vec<Ev>, u8), rep: &mut Rep, strict: bool) -> Result<(), String> {
+    use crate::model::remote::*;
+    use std::time::Duration;
+    let (evs, throttle) = v;
+    let mut bytes = vec![];
+    for m in build_messy(evs) {
+        m.to_write(&mut bytes).map_err(|e| e.to_string())?;
+    }
+    let msgs: Vec<DltMessage> = DltMessageIterator::new(0, std::io::Cursor::new(&bytes[..])).collect();
+    let total = msgs.len();
+    let sb = Sandbox::new("c07rem");
+    std::fs::write(sb.path("in.dlt"), &bytes).map_err(|e| e.to_string())?;
+    let schedule = match throttle % 3 {
+        0 => None,
+        1 => Some("3:40,3:40,5:40,10:40,20:40,40:40".to_string()),
+        _ => Some((0..20).map(|_| "7:15").collect::<Vec<_>>().join(",")),
+    };
+    let mut srv = Server::start(&sb.dir, schedule.as_deref())?;
+    let mut c = Client::connect(srv.port)?;
+    // the library detector on the same messages tells which lifecycles were withdrawn (merged) on the way: the server
+    // process allocates the same ids in the same order, starting at 1
+    let withdrawn: Vec<u32> = {
+        let (res, _r, _w) = run_detector(msgs.clone(), &DetOpts { cross_thread: false, paced: false, want_listing: false }, None);
+        (0..res.ids_allocated).map(|k| res.first_id.wrapping_add(k)).filter(|id| !res.table.iter().any(|r| r.id == *id)).map(|id| id.wrapping_sub(res.first_id) + 1).collect()
+    };
+    let mut known_stale = false;
+    let result = (|| -> Result<(usize, usize), String> {
+        let r = c.cmd(&format!(r#"open {{"files":["{}"]}}"#, sb.path("in.dlt").display()), Duration::from_secs(20))?;
+        ensure!(r.starts_with("ok:"), "open failed: {}", r);
+        let r = c.cmd(&format!(r#"stream {{"window":[0,{}],"binary":true}}"#, total + 10), Duration::from_secs(20))?;
+        ensure!(r.starts_with("ok:"), "stream refused: {}", r);
+        let id = id_in_reply(&r).ok_or("no id")?;
+        ensure!(c.wait_for(Duration::from_secs(20), &|log| log.iter().any(|f| matches!(f, Frame::FileInfo(n) if *n as usize >= total))), "file never reported as parsed");
+        c.wait_for(Duration::from_secs(15), &|log| log.iter().map(|f| if let Frame::Msgs(i, m) = f { if *i == id { m.len() } else { 0 } } else { 0 }).sum::<usize>() >= total);
+        c.pump(Duration::from_millis(120));
+        let delivered: Vec<&RMsg> = c.log.iter().filter_map(|f| if let Frame::Msgs(i, m) = f { if *i == id { Some(m.iter()) } else { None } } else { None }).flatten().collect();
+        ensure_eq!(delivered.len(), total, "messages delivered by the unfiltered stream");
+        // the client's table
+        let mut table: std::collections::BTreeMap<u32, (u32, u32)> = Default::default();
+        let mut frames = 0;
+        for f in &c.log {
+            if let Frame::Lifecycles(l) = f {
+                frames += 1;
+                for (lid, ecu, nr) in l {
+                    table.insert(*lid, (*ecu, *nr));
+                }
+            }
+        }
+        let mut per_lc: std::collections::BTreeMap<u32, (u32, u32, bool)> = Default::default(); // ecu, count, only control requests
+        for m in &delivered {
+            let e = per_lc.entry(m.lifecycle).or_insert((m.ecu, 0, true));
+            e.1 += 1;
+            let ctrl_req = m.htyp & 1 == 1 && (m.vmm >> 1) & 7 == 3 && (m.vmm >> 4) == 1;
+            e.2 &= ctrl_req;
+            ensure!(m.lifecycle != 0, "message {} delivered without lifecycle", m.index);
+            ensure_eq!(e.0, m.ecu, "lifecycle {} carries messages of two ECUs", m.lifecycle);
+        }
+        for (lid, (ecu, nr)) in &table {
+            match per_lc.get(lid) {
+                Some((e, n, _)) => ensure!(e == ecu && n == nr, "lifecycle {} is listed with ecu {:x} and {} messages, the delivered messages say ecu {:x} and {}", lid, ecu, nr, e, n),
+                None if !strict && withdrawn.contains(lid) => known_stale = true, // listed finding F07c
+                None => return Err(format!("the client's listing keeps lifecycle {} ({} messages) that no delivered message refers to (withdrawn lifecycle never retracted?)", lid, nr)),
+            }
+        }
+        for (lid, (_, n, only_ctrl)) in &per_lc {
+            ensure!(table.contains_key(lid) || *only_ctrl, "lifecycle {} of {} delivered messages never appeared in a lifecycle update", lid, n);
+        }
+        let r = c.cmd("close", Duration::from_secs(60))?;
+        ensure!(r.starts_with("ok:"), "close failed: {}", r);
+        Ok((table.len(), frames))
+    })();
+    let alive = srv.alive();
+    let stderr = srv.stderr_text();
+    drop(c);
+    drop(srv);
+    let (n_lcs, frames) = result?;
+    ensure!(alive && !stderr.contains("panicked"), "server died or panicked: {}", stderr.lines().rev().take(3).collect::<Vec<_>>().join(" / "));
+    if known_stale {
+        rep.known = Some("F07c");
+        return Ok(());
+    }
+    rep.label_if(!withdrawn.is_empty(), "lifecycle_withdrawn_on_the_way");
+    rep.label_if(n_lcs >= 3, "ge3_lifecycles");
+    rep.label_if(frames >= 2, "ge2_lifecycle_update_frames");
+    rep.nontrivial = n_lcs >= 3;
+    Ok(())
+}
+pub fn c07_remote_sub(tier: Tier) -> Box<dyn DynSub> {
+    sub("binary_remote_listing", tier.pick(200, 5_000), (prop::collection::vec(ev(3), 1..150), 0u8..3), c07_remote_listing).rates(&[("ge3_lifecycles", 0.4), ("ge2_lifecycle_update_frames", 0.1)]).shrink_iters(60).slow().boxed()
+}
+
+/// only used to replay the pinned reproducer of the open finding F07c (no exclusion)
+pub fn c07_remote_strict_sub() -> Box<dyn DynSub> {
+    sub("f07c_strict", 0, (prop::collection::vec(ev(3), 1..150), 0u8..3), |v, r| c07_remote_listing_x(v, r, true)).slow().boxed()
+}
+
 fn c19_anon(v: &(Vec<EcuTrace>, Vec<u16>), rep: &mut Rep) -> Result<(), String> {
     let (ecus, choices) = v;
     let seqs: Vec<Vec<DltMessage>> = ecus.iter().map(|e| e.build().0.into_iter().map(|x| x.0).collect()).collect();
